@@ -40,12 +40,6 @@ const raceMod = "github.com/go-task/task/v3"
 // assumption no longer applies and the access falls back to "shared".
 var raceAssume = []struct{ fn, expr, why string }{
 	{"task.(*Executor).RunTask", "param:call", "every target / dep / task call gets its own *Call (Run's callers build one per target; runDeps and runCommand build one per call)"},
-	{"task.(*Executor).GetTask", "call.Vars", "call.Vars is the callee's private copy: the templated copy of the dep/cmd vars made by compiledTask (ReplaceVars) or a NewVars() made by GetTask itself"},
-	{"task.(*Executor).runDeferred", "t.Cmds[i]", "t is the compiled per-call copy of the task; its Cmds are DeepCopy'd in compiledTask"},
-	{"internal/fingerprint.WithDry", "config", "functional option: IsTaskUpToDate applies it to the CheckerConfig literal it has just created"},
-	{"internal/fingerprint.WithLogger", "config", "functional option: IsTaskUpToDate applies it to the CheckerConfig literal it has just created"},
-	{"internal/fingerprint.WithMethod", "config", "functional option: IsTaskUpToDate applies it to the CheckerConfig literal it has just created"},
-	{"internal/fingerprint.WithTempDir", "config", "functional option: IsTaskUpToDate applies it to the CheckerConfig literal it has just created"},
 }
 
 // methods of the container types that do not mutate the receiver
@@ -251,6 +245,7 @@ type rFn struct {
 	fassigns   map[*types.Var]map[string][]ast.Expr // local -> field -> right-hand sides
 	nilDead    map[ast.Node]int                     // block -> parameter index whose nil-ness makes it dead
 	published  map[*types.Var][]ast.Expr            // local -> objects it was stored into (nil = a goroutine / channel)
+	rangeOf    map[*types.Var]ast.Expr              // loop variable -> the slice field it ranges over
 }
 
 type rCall struct {
@@ -260,6 +255,16 @@ type rCall struct {
 	args    []ast.Expr
 	deadIdx []ast.Node // enclosing blocks guarded by `param != nil`
 	held    heldSet    // locks held at the call site
+}
+
+type litInit struct {
+	fn  *rFn
+	rhs ast.Expr
+}
+
+type dynCall struct {
+	fn   *rFn
+	args []ast.Expr
 }
 
 type rAccess struct {
@@ -285,6 +290,10 @@ type raceAnalysis struct {
 	valueRef  map[*types.Func]bool
 	used      map[string]bool // assumptions actually applied
 	memo      map[*types.Var]int
+	elemMemo  map[string]int
+	closureOf map[*types.Var][2]any         // parameter of a returned closure -> (named func type, index)
+	dynCalls  map[*types.TypeName][]dynCall // calls through a value of a named func type
+	litInits  map[string][]litInit          // field class -> values given to it in composite literals
 }
 
 func fnName(pkg *rPkg, fd *ast.FuncDecl) string {
@@ -391,7 +400,7 @@ func (a *raceAnalysis) collect() {
 					}
 					fn := &rFn{name: fnName(p, dd), decl: dd, pkg: p, obj: obj, callees: map[*types.Func]bool{}, ifaceCalls: map[string]bool{},
 						assigns: map[*types.Var][]ast.Expr{}, fassigns: map[*types.Var]map[string][]ast.Expr{}, nilDead: map[ast.Node]int{},
-						published: map[*types.Var][]ast.Expr{}}
+						published: map[*types.Var][]ast.Expr{}, rangeOf: map[*types.Var]ast.Expr{}}
 					fn.params = append(fn.params, nil)
 					if dd.Recv != nil && len(dd.Recv.List) == 1 && len(dd.Recv.List[0].Names) == 1 {
 						if v, ok := p.info.Defs[dd.Recv.List[0].Names[0]].(*types.Var); ok {
@@ -409,6 +418,34 @@ func (a *raceAnalysis) collect() {
 					}
 					a.fns[obj] = fn
 					a.byName[dd.Name.Name] = append(a.byName[dd.Name.Name], fn)
+					// functional options: `func WithX(..) Opt { return func(c *Cfg) {...} }` with Opt a named func type
+					if res := obj.Type().(*types.Signature).Results(); res.Len() == 1 {
+						if n, ok := res.At(0).Type().(*types.Named); ok {
+							if _, isSig := n.Underlying().(*types.Signature); isSig {
+								ast.Inspect(dd.Body, func(nd ast.Node) bool {
+									rs, ok := nd.(*ast.ReturnStmt)
+									if !ok || len(rs.Results) != 1 {
+										return true
+									}
+									if fl, ok := rs.Results[0].(*ast.FuncLit); ok {
+										k := 0
+										for _, pl := range fl.Type.Params.List {
+											for _, nm := range pl.Names {
+												if pv, ok := p.info.Defs[nm].(*types.Var); ok {
+													a.closureOf[pv] = [2]any{n.Obj(), k}
+												}
+												k++
+											}
+											if len(pl.Names) == 0 {
+												k++
+											}
+										}
+									}
+									return true
+								})
+							}
+						}
+					}
 				case *ast.GenDecl:
 					for _, sp := range dd.Specs {
 						ts, ok := sp.(*ast.TypeSpec)
@@ -669,6 +706,8 @@ func (w *walker) recordExprs(n ast.Node, held heldSet) {
 			// a closure may run later / elsewhere: no lock of the enclosing function is assumed
 			w.block(t.Body.List, heldSet{})
 			return false
+		case *ast.CompositeLit:
+			w.recordLit(t)
 		case *ast.CallExpr:
 			w.cur = held
 			w.recordCall(t)
@@ -679,9 +718,53 @@ func (w *walker) recordExprs(n ast.Node, held heldSet) {
 	})
 }
 
+// recordLit notes, for a struct literal of a type declared in the module, the value given to each keyed field.
+func (w *walker) recordLit(cl *ast.CompositeLit) {
+	tv, ok := w.fn.pkg.info.Types[cl]
+	if !ok || tv.Type == nil {
+		return
+	}
+	t := tv.Type
+	if pt, ok := t.(*types.Pointer); ok {
+		t = pt.Elem()
+	}
+	n, ok := t.(*types.Named)
+	if !ok || n.Obj() == nil || n.Obj().Pkg() == nil {
+		return
+	}
+	if _, isStruct := n.Underlying().(*types.Struct); !isStruct {
+		return
+	}
+	path := n.Obj().Pkg().Path()
+	if path != raceMod && !strings.HasPrefix(path, raceMod+"/") {
+		return
+	}
+	short := strings.TrimPrefix(strings.TrimPrefix(path, raceMod), "/")
+	if short == "" {
+		short = "task"
+	}
+	for _, el := range cl.Elts {
+		kv, ok := el.(*ast.KeyValueExpr)
+		if !ok {
+			continue
+		}
+		if id, ok := kv.Key.(*ast.Ident); ok {
+			class := short + "." + n.Obj().Name() + "." + id.Name
+			w.a.litInits[class] = append(w.a.litInits[class], litInit{w.fn, kv.Value})
+		}
+	}
+}
+
 func (w *walker) recordCall(ce *ast.CallExpr) {
 	info := w.fn.pkg.info
 	deadCopy := append([]ast.Node(nil), w.dead...)
+	if tv, ok := info.Types[ce.Fun]; ok && tv.Type != nil {
+		if n, ok := tv.Type.(*types.Named); ok {
+			if _, isSig := n.Underlying().(*types.Signature); isSig && !tv.IsType() {
+				w.a.dynCalls[n.Obj()] = append(w.a.dynCalls[n.Obj()], dynCall{w.fn, ce.Args})
+			}
+		}
+	}
 	n0 := len(w.fn.calls)
 	defer func() {
 		for i := n0; i < len(w.fn.calls); i++ {
@@ -1017,6 +1100,13 @@ func (w *walker) stmt(s ast.Stmt, held heldSet) heldSet {
 		}
 		if t.Value != nil {
 			w.noteAssign(t.Value, nil)
+			if id, ok := t.Value.(*ast.Ident); ok && t.Tok == token.DEFINE {
+				if v, ok := w.fn.pkg.info.Defs[id].(*types.Var); ok {
+					if _, isSel := t.X.(*ast.SelectorExpr); isSel {
+						w.fn.rangeOf[v] = t.X
+					}
+				}
+			}
 			w.recordExprs(t.Value, held)
 		}
 		h := w.block(t.Body.List, held)
@@ -1233,22 +1323,35 @@ func (a *raceAnalysis) objFresh(fn *rFn, e ast.Expr, depth int) bool {
 					return false
 				}
 				rhs := a.fieldInits(fn, v, t.Sel.Name)
-				if len(rhs) == 0 {
-					return false
-				}
+				localOK := len(rhs) > 0
 				for _, r := range rhs {
 					if r == nil || !a.objFresh(fn, r, depth+1) {
-						return false
+						localOK = false
 					}
 				}
-				return true
+				if localOK {
+					return true
+				}
 			}
+		}
+		// pointer field of a per-call object (reached through a parameter, a loop variable ...):
+		// per-call when EVERY value stored into that field by code that can run on a task
+		// goroutine is per-call (assignments and composite literals, checked: see fieldFresh)
+		if fv, class := a.fieldOf(fn.pkg, t); fv != nil {
+			return a.objFresh(fn, t.X, depth+1) && a.fieldFresh(class, fv.Name(), depth+1)
 		}
 		return false
 	case *ast.IndexExpr:
 		tv, ok := info.Types[e]
 		if ok && !isPointerLike(tv.Type) {
 			return a.objFresh(fn, t.X, depth+1)
+		}
+		// an element of a slice field of a per-call object: per-call when every element ever
+		// stored into that field on a task goroutine is itself per-call (checked, see elemFresh)
+		if se, ok := t.X.(*ast.SelectorExpr); ok {
+			if v, class := a.fieldOf(fn.pkg, se); v != nil {
+				return a.objFresh(fn, se.X, depth+1) && a.elemFresh(class, v.Name(), depth+1)
+			}
 		}
 		return false
 	}
@@ -1281,6 +1384,162 @@ func (a *raceAnalysis) fieldInits(fn *rFn, v *types.Var, field string) []ast.Exp
 	return out
 }
 
+// elemFresh: every element stored into the slice field `class` (field name f)
+// by code that can run on a task goroutine is a per-call object.  All such
+// writes must have the shape  X.f = append(X.f, e1, ...) / make(...) / nil  with
+// X a local of the writing function (or be the field's initialiser in X's
+// composite literal) and every e_i per-call; anything else (sharing a slice of
+// the definition, writing through a parameter, append(xs...)) answers false.
+func (a *raceAnalysis) elemFresh(class, field string, depth int) bool {
+	switch a.elemMemo[class] {
+	case 1, 2:
+		return true // 1 = in progress (optimistic, greatest fixpoint)
+	case 3:
+		return false
+	}
+	a.elemMemo[class] = 1
+	res := true
+	writes := 0
+	for _, f := range a.fns {
+		if !f.conc || !res {
+			continue
+		}
+		for _, acc := range f.accesses {
+			if acc.class != class || acc.kind != "W" {
+				continue
+			}
+			writes++
+			id, ok := acc.base.(*ast.Ident)
+			if !ok {
+				res = false
+				break
+			}
+			v, ok := f.pkg.info.Uses[id].(*types.Var)
+			if !ok || a.paramIndex(f, v) >= 0 {
+				res = false
+				break
+			}
+			inits := a.fieldInits(f, v, field)
+			if len(inits) == 0 {
+				res = false
+				break
+			}
+			for _, r := range inits {
+				if !a.elemsOK(f, r, id.Name+"."+field, depth) {
+					res = false
+					break
+				}
+			}
+		}
+	}
+	if writes == 0 {
+		res = false // nothing on a task goroutine builds this field: its elements come from elsewhere
+	}
+	if res {
+		a.elemMemo[class] = 2
+	} else {
+		a.elemMemo[class] = 3
+	}
+	return res
+}
+
+// fieldFresh: every object stored into the pointer field `class` by code that
+// can run on a task goroutine is per-call: each assignment  X.f = rhs  (X a
+// variable of the writing function) and each composite literal  T{f: rhs}.
+func (a *raceAnalysis) fieldFresh(class, field string, depth int) bool {
+	key := "field:" + class
+	switch a.elemMemo[key] {
+	case 1, 2:
+		return true
+	case 3:
+		return false
+	}
+	a.elemMemo[key] = 1
+	res := true
+	stores := 0
+	for _, li := range a.litInits[class] {
+		if !li.fn.conc {
+			continue
+		}
+		stores++
+		if !a.objFresh(li.fn, li.rhs, depth+1) {
+			res = false
+		}
+	}
+	for _, f := range a.fns {
+		if !f.conc || !res {
+			continue
+		}
+		for _, acc := range f.accesses {
+			if acc.class != class || acc.kind != "W" {
+				continue
+			}
+			stores++
+			id, ok := acc.base.(*ast.Ident)
+			if !ok {
+				res = false
+				break
+			}
+			v, ok := f.pkg.info.Uses[id].(*types.Var)
+			if !ok {
+				res = false
+				break
+			}
+			rhs := f.fassigns[v][field]
+			if len(rhs) == 0 {
+				res = false // written some other way (address taken, mutating call)
+				break
+			}
+			for _, r := range rhs {
+				if r == nil || !a.objFresh(f, r, depth+1) {
+					res = false
+				}
+			}
+		}
+	}
+	if stores == 0 {
+		res = false
+	}
+	if res {
+		a.elemMemo[key] = 2
+	} else {
+		a.elemMemo[key] = 3
+	}
+	return res
+}
+
+func (a *raceAnalysis) elemsOK(fn *rFn, rhs ast.Expr, self string, depth int) bool {
+	switch t := rhs.(type) {
+	case nil:
+		return false
+	case *ast.Ident:
+		return t.Name == "nil"
+	case *ast.CallExpr:
+		id, ok := t.Fun.(*ast.Ident)
+		if !ok {
+			return false
+		}
+		switch id.Name {
+		case "make":
+			return true
+		case "append":
+			if t.Ellipsis.IsValid() || len(t.Args) == 0 {
+				return false
+			}
+			if exprStr(t.Args[0]) != self && !a.elemsOK(fn, t.Args[0], self, depth) {
+				return false
+			}
+			for _, e := range t.Args[1:] {
+				if !a.objFresh(fn, e, depth+1) {
+					return false
+				}
+			}
+			return true
+		}
+	}
+	return false
+}
+
 func (a *raceAnalysis) localFresh(fn *rFn, v *types.Var, depth int) bool {
 	if !isPointerLike(v.Type()) {
 		for _, into := range fn.published[v] {
@@ -1298,13 +1557,51 @@ func (a *raceAnalysis) localFresh(fn *rFn, v *types.Var, depth int) bool {
 	}
 	rhs, ok := fn.assigns[v]
 	if !ok || len(rhs) == 0 {
+		if co, isClosureParam := a.closureOf[v]; isClosureParam {
+			// parameter of a closure returned as a named func type: per-call when every call through a
+			// value of that type (on a task goroutine) passes a per-call argument, and there is one
+			tn, idx := co[0].(*types.TypeName), co[1].(int)
+			a.memo[v] = 1
+			res, calls := true, 0
+			for _, dc := range a.dynCalls[tn] {
+				if !dc.fn.conc {
+					continue
+				}
+				calls++
+				if idx >= len(dc.args) || !a.objFresh(dc.fn, dc.args[idx], depth+1) {
+					res = false
+				}
+			}
+			if calls == 0 {
+				res = false
+			}
+			if res {
+				a.memo[v] = 2
+			} else {
+				a.memo[v] = 3
+			}
+			return res
+		}
 		a.memo[v] = 3
 		return false // closure parameter, range variable of unknown origin ...
 	}
 	a.memo[v] = 1
 	res := true
 	for _, r := range rhs {
-		if r == nil || !a.objFresh(fn, r, depth+1) {
+		if r == nil {
+			// a loop variable over a slice field of a per-call object whose elements are all per-call
+			if rx, ok := fn.rangeOf[v]; ok && len(rhs) == 1 {
+				if se, ok := rx.(*ast.SelectorExpr); ok {
+					if fv, class := a.fieldOf(fn.pkg, se); fv != nil &&
+						a.objFresh(fn, se.X, depth+1) && a.elemFresh(class, fv.Name(), depth+1) {
+						continue
+					}
+				}
+			}
+			res = false
+			break
+		}
+		if !a.objFresh(fn, r, depth+1) {
 			res = false
 			break
 		}
@@ -1518,14 +1815,14 @@ func (a *raceAnalysis) solve() {
 	}
 	for iter := 0; iter < 50; iter++ {
 		changed := false
-		a.memo = map[*types.Var]int{}
+		a.memo, a.elemMemo = map[*types.Var]int{}, map[string]int{}
 		for obj, f := range a.fns {
 			if a.freshRet[obj] && !a.computeFreshRet(f) {
 				a.freshRet[obj] = false
 				changed = true
 			}
 		}
-		a.memo = map[*types.Var]int{}
+		a.memo, a.elemMemo = map[*types.Var]int{}, map[string]int{}
 		for _, g := range a.fns {
 			if !g.conc {
 				continue
@@ -1578,7 +1875,7 @@ func (a *raceAnalysis) solve() {
 			break
 		}
 	}
-	a.memo = map[*types.Var]int{}
+	a.memo, a.elemMemo = map[*types.Var]int{}, map[string]int{}
 	for _, f := range a.fns {
 		for _, acc := range f.accesses {
 			switch {
@@ -1625,7 +1922,8 @@ func factsRace(repo string, o *out) {
 	_, _ = l.Import(raceMod)
 	a := &raceAnalysis{l: l, fns: map[*types.Func]*rFn{}, byName: map[string][]*rFn{}, lockField: map[*types.Var]string{},
 		freshRet: map[*types.Func]bool{}, parFresh: map[*types.Func][]bool{}, parNil: map[*types.Func][]bool{},
-		valueRef: map[*types.Func]bool{}, used: map[string]bool{}, memo: map[*types.Var]int{}}
+		valueRef: map[*types.Func]bool{}, used: map[string]bool{}, memo: map[*types.Var]int{},
+		elemMemo: map[string]int{}, closureOf: map[*types.Var][2]any{}, dynCalls: map[*types.TypeName][]dynCall{}, litInits: map[string][]litInit{}}
 	a.collect()
 	if len(a.fns) < 50 {
 		raceFailClosed(o, "too few functions loaded")
@@ -1636,11 +1934,12 @@ func factsRace(repo string, o *out) {
 	// from "nothing held on entry" until the entry sets are stable.
 	entry := map[*types.Func]heldSet{}
 	for round := 0; round < 5; round++ {
+		a.litInits, a.dynCalls = map[string][]litInit{}, map[*types.TypeName][]dynCall{}
 		for _, f := range a.fns {
 			f.calls, f.accesses = nil, nil
 			f.callees, f.ifaceCalls = map[*types.Func]bool{}, map[string]bool{}
 			f.assigns, f.fassigns = map[*types.Var][]ast.Expr{}, map[*types.Var]map[string][]ast.Expr{}
-			f.nilDead, f.published = map[ast.Node]int{}, map[*types.Var][]ast.Expr{}
+			f.nilDead, f.published, f.rangeOf = map[ast.Node]int{}, map[*types.Var][]ast.Expr{}, map[*types.Var]ast.Expr{}
 			w := &walker{a: a, fn: f, writes: map[ast.Expr]bool{}, atomic: map[ast.Expr]bool{}}
 			w.premark(f.decl.Body)
 			init := heldSet{}
